@@ -278,6 +278,20 @@ func vfC07(w *vfWorld) {
 			sess: &vfC07Sess{claims: map[string][]string{"user": {u.Sub}, "email": {u.Email}, "groups": gs, "preferred_username": {u.PreferredUsername}, "access_token": {tok}, "id_token": {tok}}}})
 	}
 	{
+		// a verified bearer token presented by a browser that also holds somebody else's session cookie: documented
+		// (--skip-jwt-bearer-tokens: "will skip requests that have verified JWT bearer tokens") - such a request is
+		// authenticated by its token, the headers carry the token's identity
+		b2 := w.NewBrowser("Bboth", "192.0.2.11:1")
+		if _, cb := b2.Login(rep, pp+"/start?rd=%2Fapp", "uni"); cb == nil || cb.Status != 302 {
+			w.fatalf("c07: login of uni (second browser) failed")
+		}
+		tok := idp.MintBearer("alice", nil)
+		u := idp.users["alice"]
+		gs, _ := u.Groups.([]string)
+		sources = append(sources, &source{name: "bearer-over-cookie", b: b2, hdrs: [][2]string{{"Authorization", "Bearer " + tok}}, path: "/api/y",
+			sess: &vfC07Sess{claims: map[string][]string{"user": {u.Sub}, "email": {u.Email}, "groups": gs, "preferred_username": {u.PreferredUsername}, "access_token": {tok}, "id_token": {tok}}}})
+	}
+	{
 		// an htpasswd user has a name and no address; with prefer-email-to-user the name stands in for the address as well
 		// (documented: "Will only use Username if Email is unavailable, eg. htaccess authentication")
 		hc := map[string][]string{"user": {"hank"}}
